@@ -4,38 +4,59 @@ from checklib.c16 import pregen as _pregen_templates
 CONFIG = dict(
     bin="c07",
     drv="drv_c07",
-    lean_modules=["MahfModel.Props.C07", "MahfModel.Props.C07Templates"],
+    lean_modules=["MahfModel.Props.C07", "MahfModel.Props.C07Ties", "MahfModel.Props.C07Templates"],
     pregen=_pregen_templates,
     namespaces=["MahfModel.Props.C07"],
-    shrink_lists=["ops"],
+    shrink_lists=["ops", "prog", "scope"],
     level="proof",
     timeout_quick=600,
-    rule=("(1) sequences of 1..8 operations on a real State: feed a candidate population (size 0..6) to BestIndividualUpdate, call "
+    rule=("(1) sequences of 1..8 operations on a real State: feed a candidate population to BestIndividualUpdate, call "
           "BestIndividual::update with one candidate, show a population to ElitistArchiveUpdate(k), re-insert with "
-          "ElitistArchiveIntoPopulation; objective grid {-1,0,1,1,2,3,+inf,+inf} over 4 solution ids (ties and exact duplicates "
-          "frequent), every capacity k=0..7, 400 (quick) / 4000 (thorough) sequences per k (thorough adds unevaluated members); "
-          "(2) run level: all 21 templates x 3 parameter points x 4 instances (instance 3 = sphere with the optimum outside the "
+          "ElitistArchiveIntoPopulation - all on the CURRENT population - and push/pop a bait population (individuals better than "
+          "anything fed) UNDER it; population sizes 0..6 and, one in twelve, 21..48 over 60 solution ids with few distinct values "
+          "(beyond the insertion-sort range of sort_unstable, ties really reordered); objective grid {-1,-0.0,0,1-ulp,1,1,1+ulp,2,2,3,3,"
+          "5e-324,+-f64::MAX,+inf,+inf} (ties, exact duplicates, values one ulp apart); every capacity k=0..7, 800 (quick) / 4000 "
+          "(thorough) sequences per k, unevaluated members in every 20th (quick) / 5th (thorough) sequence; plus long archive histories "
+          "with k in {1,5,19,20,21,33,64} and populations of 15..40; "
+          "(1b) scoped: 1500 / 8000 real component trees of Scope (nesting up to 4) around population setters, real "
+          "BestIndividualUpdates and probes of the visible best individual; "
+          "(2) run level: all 21 templates x 4 parameter points x 4 instances (instance 3 = sphere with the optimum outside the "
           "domain) x seeds x {seq,par}: values returned per leaf step, every best-update with its population and the visible best "
-          "after it, final best_objective_value vs. the minimum the objective ever returned. Non-trivial: at least two operations "
-          "or a template run; distinct = distinct canonical input."),
-    nontrivial=lambda inp: inp.startswith("(run") or inp.count("(feed") + inp.count("(arch") + inp.count("(upd") + inp.count("(into") >= 2,
+          "after it, final best_objective_value vs. the minimum the objective ever returned. Non-trivial: at least two operations / "
+          "updates or a template run; distinct = distinct canonical input."),
+    nontrivial=lambda inp: inp.startswith("(run") or inp.count("(feed") + inp.count("(arch") + inp.count("(upd") + inp.count("(into") + inp.count("(bu)") >= 2,
     trusted_base=[
-        "sort_unstable_by_key represented by a stable insertion sort; tie order at the truncation boundary is taken from the implementation (witness) and only keys are compared",
-        "Individual equality on (solution id, objective bits); objective values as order-preserving integer keys of IEEE bits (no NaN, no -0.0)",
+        "the tie order of sort_unstable_by_key and the choice of min_by_key among equal minima are taken from the implementation's "
+        "output as witnesses; the driver checks the witness is legal (sorted permutation / a member no member beats) and that the "
+        "witness model reproduces the output; theorems quantify over all legal witnesses",
+        "Individual equality on (solution id, objective value); objective values as order-preserving integer keys of IEEE bits "
+        "(no NaN; -0.0 and 0.0 identified, as SingleObjective's PartialEq/PartialOrd do)",
         "step observer hook (cfg mahf_verif); harness classifies leaf steps by component type name"],
-    assumptions=["SplitMix64-seeded generators", "run level covers the 21 shipped templates on the shared test instances, iteration-bounded"],
-    level_text=("Lean 4 theorems for every linear order of objective values: best_update_spec (replace iff strictly better or empty, "
-                "returns that Boolean), best_monotone, best_update_dominates_population, population_best_is_min (first minimum), "
-                "best_is_min_of_fed (any sequence of populations incl. ties/duplicates/top), archive_update_k_best and "
-                "archive_history_k_best (sub-multiset of everything shown, length min k shown, nothing omitted strictly better than "
-                "something kept), archive_reinsert_no_dup, run level best_le_all_returned_partial for runs in which every "
-                "evaluation is shown to a best-update, and the counterexample evaluate_without_update_violates / best_is_min_fails "
-                "for the firefly shape. Tied to /repo by feeding the real components (K) and evaluating the predicates on their "
-                "outputs and on all template runs (O)."),
-    level_note=("Trusted: Lean kernel; harness + driver printing; list semantics of Vec and of the unstable sort. partial: the "
+    assumptions=["SplitMix64-seeded generators", "run level covers the 21 shipped templates on the shared test instances, iteration-bounded",
+                 "inputs with unevaluated individuals are outside the property (objective() panics); either side's panic is accepted there"],
+    level_text=("Lean 4 theorems for every linear order of objective values. First-minimum / stable-sort models: best_update_spec (replace "
+                "iff strictly better or empty, returns that Boolean), best_monotone, best_update_dominates_population, "
+                "population_best_is_min, best_is_min_of_fed, archive_update_k_best, archive_history_k_best, archive_reinsert_no_dup. "
+                "Tie-agnostic (for ALL legal witnesses: any member of minimal objective value offered; any sorted permutation produced "
+                "by the unstable sort): best_update_any_min_spec (dominates the population; old record or a strictly better member), "
+                "best_value_witness_independent, best_history_any_min, best_history_only_improves (whole histories), "
+                "archive_update_any_sort, archive_values_witness_independent, archive_history_any_sort (sub-multiset, length min k "
+                "shown, nothing omitted strictly better, kept objective values = the k smallest shown), with "
+                "first_minimum_is_legal_witness / stable_sort_is_legal_witness showing the deterministic models are instances. "
+                "The executable predicates the driver evaluates are proved equivalent to the specification "
+                "(archive_predicate_iff_spec, reinsert_predicate_iff_spec). Scopes: scope_with_own_update_leaves_callers_best, "
+                "scope_without_update_touches_only_visible_best (any well-bracketed body). Run level: "
+                "best_le_all_returned_partial and best_eq_min_returned_partial (covered runs: reported best EQUALS the minimum "
+                "returned), update_values_refine (the value-level update of the run model is BestIndividualUpdate seen through obj), "
+                "and the counterexample evaluate_without_update_violates / best_is_min_fails for the firefly shape. Tied to /repo by "
+                "feeding the real components, real Scope trees and all template runs (K: witness models reproduce the output; O: "
+                "the proved predicates on the implementation's output)."),
+    level_note=("Trusted: Lean kernel; harness + driver printing; list semantics of Vec. Not part of the property and therefore not "
+                "compared: which of several equally good individuals is remembered / survives at the capacity boundary, the order of "
+                "individuals inside the archive and inside the re-inserted population, panics on unevaluated input. partial: the "
                 "run-level statement is proved for covered traces (every value returned is shown to an update, no scope shadows the "
-                "best); it is refuted for the firefly template (known finding, recorded). Template wiring is audited by running "
-                "the templates, not by a regenerated static analysis."),
+                "best); it is refuted for the firefly template (known finding, recorded). ILS templates: the static analysis is not "
+                "applicable (updates inside the scope go to a shadowing record); decided by the run-level check only."),
 )
 
 CONFIG["level_text"] = CONFIG["level_text"] + " " + 'Template level: an evaluate-then-update typestate analysis over the component trees is proved sound (reported best = minimum returned, for every execution of an abstract interpreter), and the kernel re-evaluates it by `decide` on the regenerated trees of all 21 templates x 4 parameter points (84 obligations; firefly = false, the recorded finding, with a concrete violating model execution; ILS = not applicable, decided by the run-level check).'
